@@ -7,6 +7,9 @@ import (
 	"errors"
 	"fmt"
 	"io"
+	"reflect"
+	"sort"
+	"strings"
 
 	"github.com/lni/dragonboat/v4/config"
 	"github.com/lni/dragonboat/v4/logger"
@@ -205,12 +208,15 @@ type replica struct {
 	index uint64
 	name  string
 	conc  bool       // user state machine is an IConcurrentStateMachine
+	nv    bool       // config.IsNonVoting
 	rlog  []pb.Entry // every entry this replica has applied (its part of the raft log)
 }
 
-func mkStateMachine(conc bool, cap uint64, fs hk.IFS, snap *snapshotter) (*hk.StateMachine, *accSM, *nodeProxy) {
+func mkStateMachine(conc, nonVoting bool, cap uint64, fs hk.IFS, snap *snapshotter) (*hk.StateMachine, *accSM, *nodeProxy) {
 	hk.SetLRUMaxSessionCount(cap)
-	cfg := config.Config{ShardID: 1, ReplicaID: 1}
+	// the replica kind: a non-voting replica (observer) applies the same log and must
+	// end up with the same sessions, results and user state as a full member
+	cfg := config.Config{ShardID: 1, ReplicaID: 1, IsNonVoting: nonVoting}
 	usm := &accSM{}
 	node := &nodeProxy{applied: map[uint64][]applyRec{}, stop: make(chan struct{})}
 	var msm hk.IManagedStateMachine
@@ -222,12 +228,12 @@ func mkStateMachine(conc bool, cap uint64, fs hk.IFS, snap *snapshotter) (*hk.St
 	return hk.NewStateMachine(msm, snap, cfg, node, fs), usm, node
 }
 
-func newReplica(conc bool, cap uint64, fs hk.IFS, name string) *replica {
+func newReplica(conc, nonVoting bool, cap uint64, fs hk.IFS, name string) *replica {
 	dir := "/c05-" + name
 	must(fs.MkdirAll(dir, 0755))
 	snap := &snapshotter{fs: fs, dir: dir}
-	s, usm, node := mkStateMachine(conc, cap, fs, snap)
-	r := &replica{sm: s, usm: usm, node: node, snap: snap, fs: fs, cap: cap, name: name, conc: conc}
+	s, usm, node := mkStateMachine(conc, nonVoting, cap, fs, snap)
+	r := &replica{sm: s, usm: usm, node: node, snap: snap, fs: fs, cap: cap, name: name, conc: conc, nv: nonVoting}
 	// index 1: the config change that makes replica 1 a member (snapshots need a membership)
 	cc := pb.ConfigChange{Type: pb.AddNode, ReplicaID: 1, Address: "a1"}
 	r.feed([]pb.Entry{{Index: 1, Term: 1, Type: pb.ConfigChangeEntry, Cmd: pb.MustMarshal(&cc)}})
@@ -324,7 +330,7 @@ func (r *replica) snapshotRestart() (saved string, nr *replica, perr string) {
 		r.snap.last, r.snap.has = ss, true
 		cap, sessions := decodeSessions(r.snap.sessions)
 		saved = showSessions(cap, sessions)
-		s, usm, node := mkStateMachine(r.conc, r.cap, r.fs, r.snap)
+		s, usm, node := mkStateMachine(r.conc, r.nv, r.cap, r.fs, r.snap)
 		got, err := s.Recover(hk.Task{Initial: true})
 		if err != nil {
 			panic(err)
@@ -332,7 +338,7 @@ func (r *replica) snapshotRestart() (saved string, nr *replica, perr string) {
 		if got.Index != r.index {
 			panic(fmt.Sprintf("recovered snapshot index %d, want %d", got.Index, r.index))
 		}
-		nr = &replica{sm: s, usm: usm, node: node, snap: r.snap, fs: r.fs, cap: r.cap, index: r.index, name: r.name, conc: r.conc, rlog: r.rlog}
+		nr = &replica{sm: s, usm: usm, node: node, snap: r.snap, fs: r.fs, cap: r.cap, index: r.index, name: r.name, conc: r.conc, nv: r.nv, rlog: r.rlog}
 	})
 	return
 }
@@ -376,7 +382,7 @@ func decodeSessions(b []byte) (uint64, []sessionView) {
 // most-recently-used first (want) and the user state in the image.
 func (r *replica) installFrom(history []op, n int) (saved, want string, acc uint64, perr string) {
 	perr = vh.Catch(func() {
-		ld := newReplica(r.conc, r.cap, r.fs, fmt.Sprintf("%s-ld%d", r.name, n))
+		ld := newReplica(r.conc, false, r.cap, r.fs, fmt.Sprintf("%s-ld%d", r.name, n))
 		for _, o := range history {
 			ld.apply(o)
 		}
@@ -487,8 +493,8 @@ func (r *replica) saveEnd(p *pendingSave) (fileOrder, mru string, perr string) {
 // most recent snapshot (if any) and replays the entries above its index.
 func (r *replica) restart() (nr *replica, restored string, perr string) {
 	perr = vh.Catch(func() {
-		s, usm, node := mkStateMachine(r.conc, r.cap, r.fs, r.snap)
-		nr = &replica{sm: s, usm: usm, node: node, snap: r.snap, fs: r.fs, cap: r.cap, name: r.name, conc: r.conc}
+		s, usm, node := mkStateMachine(r.conc, r.nv, r.cap, r.fs, r.snap)
+		nr = &replica{sm: s, usm: usm, node: node, snap: r.snap, fs: r.fs, cap: r.cap, name: r.name, conc: r.conc, nv: r.nv}
 		if r.snap.has {
 			got, err := s.Recover(hk.Task{Initial: true})
 			if err != nil {
@@ -508,6 +514,53 @@ func (r *replica) restart() (nr *replica, restored string, perr string) {
 		nr.node.applied = map[uint64][]applyRec{}
 		if nr.index != r.index {
 			panic(fmt.Sprintf("replayed up to index %d, the replica had applied %d", nr.index, r.index))
+		}
+	})
+	return
+}
+
+// ---- non-log lookups ----
+
+// sessionAccessors lists, by reflection on the real *rsm.StateMachine, every
+// exported method that concerns client sessions and can be called from outside
+// the apply path with no argument or a client id (today: GetSessionHash). A new
+// accessor is picked up automatically.
+func sessionAccessors(s *hk.StateMachine) []string {
+	var out []string
+	t := reflect.TypeOf(s)
+	for i := 0; i < t.NumMethod(); i++ {
+		m := t.Method(i)
+		n := strings.ToLower(m.Name)
+		if strings.HasPrefix(m.Name, "Verif") {
+			continue
+		}
+		if !(strings.Contains(n, "session") || strings.Contains(n, "client") || strings.Contains(n, "regist") || strings.Contains(n, "series")) {
+			continue
+		}
+		ok := m.Type.NumIn() == 1
+		if m.Type.NumIn() == 2 && m.Type.In(1).Kind() == reflect.Uint64 {
+			ok = true
+		}
+		if ok {
+			out = append(out, m.Name)
+		}
+	}
+	sort.Strings(out)
+	return out
+}
+
+// nonLogLookup calls all of them (a client API call that never reaches the log).
+func (r *replica) nonLogLookup(client uint64) (names []string, perr string) {
+	names = sessionAccessors(r.sm)
+	perr = vh.Catch(func() {
+		v := reflect.ValueOf(r.sm)
+		for _, n := range names {
+			m := v.MethodByName(n)
+			if m.Type().NumIn() == 0 {
+				m.Call(nil)
+			} else {
+				m.Call([]reflect.Value{reflect.ValueOf(client).Convert(m.Type().In(0))})
+			}
 		}
 	})
 	return
